@@ -529,6 +529,11 @@ func ruleDDispatch(p *Program, r *Reporter) {
 						bad = fmt.Sprintf("argument %d: %s in the current-node form corresponds to %s in the other form", i+1, x, y)
 					}
 				default:
+					// a predicate of the left-hand child (is it a slice?) in the unfused form: the current node, which
+					// stands in its place in the other form, is no such node, so a constant false corresponds to it
+					if x == "false" && strings.Contains(y, "(node.Left)") {
+						continue
+					}
 					if x != y {
 						bad = fmt.Sprintf("argument %d differs: %s vs %s", i+1, x, y)
 					}
